@@ -82,18 +82,10 @@ impl<'r> Series<'r> {
                 ))));
             }
 
-            (Number::Count(1), format::Type::Integer, Type::Int8(len)) => {
-                get_i8_value(self.src, len, i)
-            }
-            (Number::Count(1), format::Type::Integer, Type::Int16(len)) => {
-                get_i16_value(self.src, len, i)
-            }
-            (Number::Count(1), format::Type::Integer, Type::Int32(len)) => {
-                get_i32_value(self.src, len, i)
-            }
-            (Number::Count(1), format::Type::Float, Type::Float(len)) => {
-                get_f32_value(self.src, len, i)
-            }
+            (Number::Count(1), format::Type::Integer, Type::Int8(1)) => get_i8_value(self.src, i),
+            (Number::Count(1), format::Type::Integer, Type::Int16(1)) => get_i16_value(self.src, i),
+            (Number::Count(1), format::Type::Integer, Type::Int32(1)) => get_i32_value(self.src, i),
+            (Number::Count(1), format::Type::Float, Type::Float(1)) => get_f32_value(self.src, i),
             (Number::Count(1), format::Type::Character, Type::String(len)) => {
                 get_char_value(self.src, len, i)
             }
@@ -120,11 +112,7 @@ impl<'r> Series<'r> {
             }
         };
 
-        match value {
-            Some(Some(value)) => Some(Some(Ok(value))),
-            Some(None) => Some(None),
-            None => None,
-        }
+        value.map(|result| result.transpose())
     }
 }
 
@@ -204,90 +192,90 @@ fn range<N>(i: usize, len: usize) -> Range<usize> {
     start..end
 }
 
-fn get_i8_value(src: &[u8], len: usize, i: usize) -> Option<Option<Value<'_>>> {
+fn get_i8_value(src: &[u8], i: usize) -> Option<io::Result<Option<Value<'_>>>> {
     use crate::record::codec::value::Int8;
 
-    let src = src.get(range::<i8>(i, len))?;
+    let src = src.get(range::<i8>(i, 1))?;
 
     let value = match Int8::from(src[0] as i8) {
-        Int8::Value(n) => Some(Value::Integer(i32::from(n))),
-        Int8::Missing => None,
-        Int8::EndOfVector | Int8::Reserved(_) => todo!(),
+        Int8::Value(n) => Ok(Some(Value::Integer(i32::from(n)))),
+        Int8::Missing => Ok(None),
+        Int8::EndOfVector | Int8::Reserved(_) => Err(invalid_value_error()),
     };
 
     Some(value)
 }
 
-fn get_i8_array_value(src: &[u8], len: usize, i: usize) -> Option<Option<Value<'_>>> {
+fn get_i8_array_value(src: &[u8], len: usize, i: usize) -> Option<io::Result<Option<Value<'_>>>> {
     let src = src.get(range::<i8>(i, len))?;
     let values = Values::<'_, i8>::new(src);
-    Some(Some(Value::Array(Array::Integer(Box::new(values)))))
+    Some(Ok(Some(Value::Array(Array::Integer(Box::new(values))))))
 }
 
-fn get_i16_value(src: &[u8], len: usize, i: usize) -> Option<Option<Value<'_>>> {
+fn get_i16_value(src: &[u8], i: usize) -> Option<io::Result<Option<Value<'_>>>> {
     use crate::record::codec::value::Int16;
 
-    let src = src.get(range::<i16>(i, len))?;
+    let src = src.get(range::<i16>(i, 1))?;
 
     // SAFETY: `src` is 2 bytes.
     let value = match Int16::from(i16::from_le_bytes(src.try_into().unwrap())) {
-        Int16::Value(n) => Some(Value::Integer(i32::from(n))),
-        Int16::Missing => None,
-        Int16::EndOfVector | Int16::Reserved(_) => todo!(),
+        Int16::Value(n) => Ok(Some(Value::Integer(i32::from(n)))),
+        Int16::Missing => Ok(None),
+        Int16::EndOfVector | Int16::Reserved(_) => Err(invalid_value_error()),
     };
 
     Some(value)
 }
 
-fn get_i16_array_value(src: &[u8], len: usize, i: usize) -> Option<Option<Value<'_>>> {
+fn get_i16_array_value(src: &[u8], len: usize, i: usize) -> Option<io::Result<Option<Value<'_>>>> {
     let src = src.get(range::<i16>(i, len))?;
     let values = Values::<'_, i16>::new(src);
-    Some(Some(Value::Array(Array::Integer(Box::new(values)))))
+    Some(Ok(Some(Value::Array(Array::Integer(Box::new(values))))))
 }
 
-fn get_i32_value(src: &[u8], len: usize, i: usize) -> Option<Option<Value<'_>>> {
+fn get_i32_value(src: &[u8], i: usize) -> Option<io::Result<Option<Value<'_>>>> {
     use crate::record::codec::value::Int32;
 
-    let src = src.get(range::<i32>(i, len))?;
+    let src = src.get(range::<i32>(i, 1))?;
 
-    // SAFETY: `src` is 2 bytes.
+    // SAFETY: `src` is 4 bytes.
     let value = match Int32::from(i32::from_le_bytes(src.try_into().unwrap())) {
-        Int32::Value(n) => Some(Value::Integer(n)),
-        Int32::Missing => None,
-        Int32::EndOfVector | Int32::Reserved(_) => todo!(),
+        Int32::Value(n) => Ok(Some(Value::Integer(n))),
+        Int32::Missing => Ok(None),
+        Int32::EndOfVector | Int32::Reserved(_) => Err(invalid_value_error()),
     };
 
     Some(value)
 }
 
-fn get_i32_array_value(src: &[u8], len: usize, i: usize) -> Option<Option<Value<'_>>> {
+fn get_i32_array_value(src: &[u8], len: usize, i: usize) -> Option<io::Result<Option<Value<'_>>>> {
     let src = src.get(range::<i32>(i, len))?;
     let values = Values::<'_, i32>::new(src);
-    Some(Some(Value::Array(Array::Integer(Box::new(values)))))
+    Some(Ok(Some(Value::Array(Array::Integer(Box::new(values))))))
 }
 
-fn get_f32_value(src: &[u8], len: usize, i: usize) -> Option<Option<Value<'_>>> {
+fn get_f32_value(src: &[u8], i: usize) -> Option<io::Result<Option<Value<'_>>>> {
     use crate::record::codec::value::Float;
 
-    let src = src.get(range::<f32>(i, len))?;
+    let src = src.get(range::<f32>(i, 1))?;
 
-    // SAFETY: `src` is 2 bytes.
+    // SAFETY: `src` is 4 bytes.
     let value = match Float::from(f32::from_le_bytes(src.try_into().unwrap())) {
-        Float::Value(n) => Some(Value::Float(n)),
-        Float::Missing => None,
-        Float::EndOfVector | Float::Reserved(_) => todo!(),
+        Float::Value(n) => Ok(Some(Value::Float(n))),
+        Float::Missing => Ok(None),
+        Float::EndOfVector | Float::Reserved(_) => Err(invalid_value_error()),
     };
 
     Some(value)
 }
 
-fn get_f32_array_value(src: &[u8], len: usize, i: usize) -> Option<Option<Value<'_>>> {
+fn get_f32_array_value(src: &[u8], len: usize, i: usize) -> Option<io::Result<Option<Value<'_>>>> {
     let src = src.get(range::<f32>(i, len))?;
     let values = Values::<'_, f32>::new(src);
-    Some(Some(Value::Array(Array::Float(Box::new(values)))))
+    Some(Ok(Some(Value::Array(Array::Float(Box::new(values))))))
 }
 
-fn get_string(src: &[u8], len: usize, i: usize) -> Option<&str> {
+fn get_string(src: &[u8], len: usize, i: usize) -> Option<io::Result<&str>> {
     const NUL: u8 = 0x00;
 
     let src = src.get(range::<u8>(i, len))?;
@@ -297,44 +285,51 @@ fn get_string(src: &[u8], len: usize, i: usize) -> Option<&str> {
         None => src,
     };
 
-    Some(
-        str::from_utf8(src)
-            .map_err(|e| io::Error::new(io::ErrorKind::InvalidData, e))
-            .unwrap(), // TODO
-    )
+    Some(str::from_utf8(src).map_err(|e| io::Error::new(io::ErrorKind::InvalidData, e)))
 }
 
-fn get_char_value(src: &[u8], len: usize, i: usize) -> Option<Option<Value<'_>>> {
+fn get_char_value(src: &[u8], len: usize, i: usize) -> Option<io::Result<Option<Value<'_>>>> {
     const MISSING: char = '.';
 
-    let s = get_string(src, len, i)?;
+    let result = get_string(src, len, i)?.and_then(|s| match s.chars().next() {
+        Some(MISSING) => Ok(None),
+        Some(c) => Ok(Some(Value::Character(c))),
+        None => Err(io::Error::new(
+            io::ErrorKind::InvalidData,
+            "invalid character",
+        )),
+    });
 
-    // TODO
-    let c = s.chars().next().unwrap();
-
-    match c {
-        MISSING => Some(None),
-        _ => Some(Some(Value::Character(c))),
-    }
+    Some(result)
 }
 
-fn get_char_array_value(src: &[u8], len: usize, i: usize) -> Option<Option<Value<'_>>> {
-    let s = get_string(src, len, i)?;
-    Some(Some(Value::Array(Array::Character(Box::new(s)))))
+fn get_char_array_value(src: &[u8], len: usize, i: usize) -> Option<io::Result<Option<Value<'_>>>> {
+    let result = get_string(src, len, i)?;
+    Some(result.map(|s| Some(Value::Array(Array::Character(Box::new(s))))))
 }
 
-fn get_string_value(src: &[u8], len: usize, i: usize) -> Option<Option<Value<'_>>> {
+fn get_string_value(src: &[u8], len: usize, i: usize) -> Option<io::Result<Option<Value<'_>>>> {
     const MISSING: &str = ".";
 
-    match get_string(src, len, i)? {
-        MISSING => Some(None),
-        s => Some(Some(Value::String(Cow::from(s)))),
-    }
+    let result = get_string(src, len, i)?.map(|s| match s {
+        MISSING => None,
+        _ => Some(Value::String(Cow::from(s))),
+    });
+
+    Some(result)
 }
 
-fn get_string_array_value(src: &[u8], len: usize, i: usize) -> Option<Option<Value<'_>>> {
-    let s = get_string(src, len, i)?;
-    Some(Some(Value::Array(Array::String(Box::new(s)))))
+fn get_string_array_value(
+    src: &[u8],
+    len: usize,
+    i: usize,
+) -> Option<io::Result<Option<Value<'_>>>> {
+    let result = get_string(src, len, i)?;
+    Some(result.map(|s| Some(Value::Array(Array::String(Box::new(s))))))
+}
+
+fn invalid_value_error() -> io::Error {
+    io::Error::new(io::ErrorKind::InvalidData, "invalid value")
 }
 
 fn get_genotype_value<'r>(
@@ -894,6 +889,97 @@ mod tests {
             src: &[0x00, 0x00, 0x00, 0x00],
         };
         t(&series, &header);
+    }
+
+    #[test]
+    fn test_get_with_invalid_values() {
+        fn t(number: Number, format_ty: format::Type, ty: Type, src: &[u8]) {
+            let header = build_header_with_format(NAME, number, format_ty);
+            let id = header.string_maps().strings().get_index_of(NAME).unwrap();
+
+            let series = Series {
+                id,
+                ty,
+                sample_count: 1,
+                src,
+            };
+
+            assert!(matches!(
+                series.get(&header, 0),
+                Some(Some(Err(e))) if e.kind() == io::ErrorKind::InvalidData
+            ));
+        }
+
+        // end-of-vector and reserved values
+        t(
+            Number::Count(1),
+            format::Type::Integer,
+            Type::Int8(1),
+            &[0x81],
+        );
+        t(
+            Number::Count(1),
+            format::Type::Integer,
+            Type::Int8(1),
+            &[0x82],
+        );
+        t(
+            Number::Count(1),
+            format::Type::Integer,
+            Type::Int16(1),
+            &[0x01, 0x80],
+        );
+        t(
+            Number::Count(1),
+            format::Type::Integer,
+            Type::Int32(1),
+            &[0x01, 0x00, 0x00, 0x80],
+        );
+        t(
+            Number::Count(1),
+            format::Type::Float,
+            Type::Float(1),
+            &[0x02, 0x00, 0x80, 0x7f],
+        );
+
+        // invalid UTF-8
+        t(
+            Number::Count(1),
+            format::Type::String,
+            Type::String(2),
+            &[0xc3, 0x28],
+        );
+
+        // empty character
+        t(
+            Number::Count(1),
+            format::Type::Character,
+            Type::String(1),
+            &[0x00],
+        );
+    }
+
+    #[test]
+    fn test_get_with_single_value_and_multiple_raw_values() {
+        let header = build_header_with_format(NAME, Number::Count(1), format::Type::Integer);
+        let id = header.string_maps().strings().get_index_of(NAME).unwrap();
+
+        let series = Series {
+            id,
+            ty: Type::Int16(2),
+            sample_count: 1,
+            src: &[0x05, 0x00, 0x08, 0x00],
+        };
+
+        match series.get(&header, 0) {
+            Some(Some(Ok(Value::Array(Array::Integer(values))))) => {
+                assert_eq!(
+                    values.iter().collect::<io::Result<Vec<_>>>().unwrap(),
+                    [Some(5), Some(8)]
+                );
+            }
+            _ => panic!(),
+        }
     }
 
     #[test]
